@@ -24,7 +24,7 @@ RESIDUES = ('one', 'two', 'three')
 NOISES = ('none', 'comments', 'preproc', 'spacing', 'trailing', 'repeat', 'ifdef_inside')
 ELEMS = 'CNOHS'
 BIG_N = (501, 998, 999, 1000, 1001, 3000)
-BIG_FAMILIES = ('chain', 'revchain', 'star', 'comb', 'joined', 'notjoined', 'ring_tail2', 'lone_first')
+BIG_FAMILIES = ('chain', 'revchain', 'star', 'comb', 'joined', 'notjoined', 'ring_tail2', 'lone_first', 'bridged')
 ATTACHED = ('moleculetype', 'atoms', 'bonds', 'constraints', 'pairs')
 TAILS = (' ; note', ' ;', ' ; a ; b', ';7 8 tight', ' ; 1 2', ' ;;', ' ; b0 [nm]', ' ; see [ref] [ 12 ]')
 
@@ -217,6 +217,11 @@ def big_graph(fam, n):
     if fam in ('chain', 'revchain'):
         e = en.chain(n)
         a = [0] * len(e)
+    elif fam == 'bridged':
+        # a chain with long bridges whose atom NUMBERS, written one after the other, read the same for different
+        # pairs (1-123 / 11-23, 2-356 / 23-56, 12-345 / 123-45): distinct pairs all the same
+        e = en.chain(n) + [(0, 122), (10, 22), (1, 355), (22, 55), (11, 344), (122, 44)]
+        a = [0] * (n - 1) + [0, 1, 2, 0, 1, 2]
     elif fam == 'star':
         e = en.star(n)
         a = [k % 3 for k in range(len(e))]
@@ -250,7 +255,7 @@ class C15(Check):
                  'read_topology / MoleculeTop / are_connected / copy and by an independent reference reader')
     level_text = ('every labelled simple graph on 1..4 (quick) / 1..5 (thorough) atoms, with every assignment of its '
                   'edges to bonds/constraints/pairs (at most 2 edges off [ bonds ] beyond 4 edges), 3 numberings, '
-                  '3 residue layouts (+ one with atom / residue names longer than five characters), 3 section orders and 7 noise templates (incl. conditional blocks inside the sections), and 8 large families (incl. unbonded atoms at the very end / start) at 6 sizes from 501 up to '
+                  '3 residue layouts (+ one with atom / residue names longer than five characters), 3 section orders and 7 noise templates (incl. conditional blocks inside the sections), and 9 large families (incl. unbonded atoms at the very end / start) at 6 sizes from 501 up to '
                   '3000 atoms are rendered and read by the real code, plus a sequence of 6 different topologies written to one path and read by path, one file per typed section with a comment glued to '
                   'the last token (`1 2 1;c`) and one with indented directives; a coverage statement over that finite space')
     level_note = ('trusted: the reference reader mcx/ref/itp.py (self-tested), the graph enumerators; each file is loaded '
